@@ -565,6 +565,16 @@ Proof.
 Qed.
 Print Assumptions T07g_last_newline_optional.
 
+(* the entries my_fileset_reload keeps, for ANY text: strictly ascending paths (so each path once: the distinctness the
+   theorems above assume of the setfile's lines is a property of the reading, not of the text - the repair F12), and
+   exactly the names of the text whose path exists *)
+Theorem T07g_loaded_entries : forall path_exists setdir text,
+  Sorting.Sorted.StronglySorted (fun a b => Order.bcmp a b = Lt) (loaded_names path_exists setdir text) /\
+  NoDup (loaded_names path_exists setdir text) /\
+  (forall p, In p (loaded_names path_exists setdir text) <-> In p (setfile_names setdir text) /\ path_exists p = true).
+Proof. exact loaded_names_spec. Qed.
+Print Assumptions T07g_loaded_entries.
+
 Example T07g_example :
   (* /d/set names a.mtbl (relative), /x/b (absolute), ./c (relative with a directory part); no newline after the last *)
   setfile_names [47; 100] ([97; 10] ++ [47; 120; 47; 98; 10] ++ [46; 47; 99]) = [[47; 100; 47; 97]; [47; 120; 47; 98]; [47; 100; 47; 46; 47; 99]] /\
